@@ -4,28 +4,9 @@ reference machine (`Ref`), and the lemmas that let MARK-delimited operations com
 -/
 import PFV.Sim
 import PFV.Ref
+import PFV.Compat
 namespace PFV
 open Ref (RKind RState RMemo)
-
-/-- Appendix A: which reference kinds a simulated kind may stand for.  `mark ~ mark` only. -/
-def compat : Kind → RKind → Bool
-  | .mark, r => r == .mark
-  | _, .mark => false
-  | .extension, r | .any, r => r == .any
-  | _, .any => true
-  | .int, r | .bool, r => r == .intOrBool || r == .int || r == .bool
-  | .float, r => r == .float
-  | .pnone, r => r == .pnone
-  | .bytes, r => r == .bytes || r == .bytesOrStr
-  | .string, r => r == .str || r == .bytesOrStr
-  | .byteArray, r => r == .bytearray
-  | .list, r => r == .list
-  | .tuple, r => r == .tuple
-  | .dict, r => r == .dict
-  | .set, r => r == .set
-  | .frozenSet, r => r == .frozenset
-  | .glob, r | .callable, r => r == .callable
-  | .obj, r => r == .object
 
 /-- slot-by-slot compatibility of two stacks of equal depth -/
 inductive Rel : List Kind → List RKind → Prop
